@@ -40,7 +40,10 @@ func scenarios() []scenario {
 	listGood := reqSpec{Name: "listGood", Method: "GET", Target: "/api/list?q=lg", Headers: map[string]string{"X-Key": "good-l", "Accept": "application/json"}}
 	listNone := reqSpec{Name: "listNone", Method: "GET", Target: "/api/list?q=ln", Headers: map[string]string{"Accept": "application/json"}}
 	listBad := reqSpec{Name: "listBad", Method: "GET", Target: "/api/list?q=lb", Headers: map[string]string{"X-Key": "wrong", "Accept": "text/plain"}}
+	paramText := reqSpec{Name: "paramText", Method: "GET", Target: "/api/param/5?q=pt", Headers: map[string]string{"Accept": "text/plain"}}
+	paramJSON := reqSpec{Name: "paramJSON", Method: "GET", Target: "/api/param/6?q=pj", Headers: map[string]string{"Accept": "application/json"}}
 	return []scenario{
+		{"offer-with-parameter-vs-json", []reqSpec{paramText, paramJSON}},
 		{"static-route-json-vs-text", []reqSpec{plainJSON, plainText}},
 		{"static-route-text-vs-json", []reqSpec{plainText, plainJSON}},
 		{"static-secured-good-vs-none", []reqSpec{listGood, listNone}},
